@@ -517,7 +517,10 @@ Proof. vm_compute. reflexivity. Qed.
 
 Theorem water_neutral : check_water 0 built States.wat_id States.wat_atoms = true.
 Proof. vm_compute. reflexivity. Qed.
-"""
+
+Theorem round4_facts : check_round4 built States.nrows = true.
+Proof. vm_compute. reflexivity. Qed.
+{neutral_block(ff)}"""
         write_if_changed(GEN / f"StatesFF_{ff}.v", t)
 
 
@@ -526,6 +529,23 @@ Proof. vm_compute. reflexivity. Qed.
 #   C02-F1  PARSE.names overlays the generic neutral C-terminal backbone BKC (N -0.4, H +0.4,
 #           CA 0) on PRO, which has no amide H and keeps CD +0.28: NEUTRAL-CPRO sums to -0.12
 KNOWN_EXCEPTIONS = {"PARSE": [("PRO", "PRO", "NC")]}
+
+
+def neutral_block(ff):
+    """PARSE is the only force field main.check_options lets --neutraln/--neutralc through for."""
+    if ff == "PARSE":
+        return """
+(* number of (charged, neutral) state pairs both fully parameterised *)
+Definition neutral_pairs : nat := Eval vm_compute in
+  List.length (filter (fun r => is_neutral_name (ar_name r) && row_resolves built r && negb (mem_nat (ar_key r) known_exceptions)) States.arows).
+
+Theorem neutral_shift : check_neutral_shift built known_exceptions States.arows = true.
+Proof. vm_compute. reflexivity. Qed.
+"""
+    return """
+Theorem neutral_absent : check_neutral_absent built States.arows = true.
+Proof. vm_compute. reflexivity. Qed.
+"""
 
 
 def exception_names(arows, ff):
